@@ -22,6 +22,7 @@ type Program struct {
 	fnInfos   sync.Map
 	methCache sync.Map
 	implCache sync.Map
+	mergeCache sync.Map
 	methMu    sync.Mutex
 	intrinsics map[string]Intrinsic
 	opaqueTables map[string]bool
